@@ -64,9 +64,18 @@ def _is_doc(stmt) -> bool:
     return isinstance(stmt, ast.Expr) and isinstance(stmt.value, ast.Constant) and isinstance(stmt.value.value, str)
 
 
+def _is_report(stmt) -> bool:
+    """`print(...)` / `warnings.warn(...)` / logging calls: reporting only"""
+    if not (isinstance(stmt, ast.Expr) and isinstance(stmt.value, ast.Call)):
+        return False
+    fn = stmt.value.func
+    name = fn.id if isinstance(fn, ast.Name) else (ast.unparse(fn) if isinstance(fn, ast.Attribute) else "")
+    return name == "print" or name.startswith(("logging.", "logger.", "log.")) or name == "warnings.warn"
+
+
 def _flatten(body, depth, out):
     for stmt in body:
-        if _is_doc(stmt):
+        if _is_doc(stmt) or _is_report(stmt):
             continue
         if isinstance(stmt, ast.For):
             out.append(f"{depth}:for {ast.unparse(stmt.target)} in {ast.unparse(stmt.iter)}")
@@ -153,46 +162,65 @@ def emit_all(emit):
     from classy_blocks.optimize.smoother import MeshSmoother, SketchSmoother, SmootherBase
     from classy_blocks.util import constants
 
-    S = "List String"
-    emit("c15SrcSmooth", S, skeleton(SmootherBase.smooth), "SmootherBase.smooth, statement skeleton (cbv/tables/c15.py)")
-    emit("c15SrcSmootherInit", S, skeleton(SmootherBase.__init__), "SmootherBase.__init__ (which junctions are inner)")
-    emit("c15SrcFixIndexes", S, skeleton(SmootherBase.fix_indexes), "SmootherBase.fix_indexes")
-    emit("c15SrcFixPoints", S, skeleton(SmootherBase.fix_points), "SmootherBase.fix_points")
-    emit("c15SrcBackportMesh", S, skeleton(MeshSmoother.backport), "MeshSmoother.backport")
-    emit("c15SrcBackportSketch", S, skeleton(SketchSmoother.backport), "SketchSmoother.backport")
-    emit("c15SrcJunctionPoint", S, skeleton(Junction.point), "Junction.point (a view of the shared array: updates are in place)")
-    emit("c15SrcJunctionAddCell", S, skeleton(Junction.add_cell), "Junction.add_cell")
-    emit("c15SrcJunctionAddNeighbour", S, skeleton(Junction.add_neighbour), "Junction.add_neighbour")
-    emit("c15SrcJunctionIsBoundary", S, skeleton(Junction.is_boundary), "Junction.is_boundary")
-    emit("c15SrcCellInit", S, skeleton(CellBase.__init__), "CellBase.__init__ (neighbours dict, connections from edge_pairs)")
-    emit("c15SrcCellCommonIndexes", S, skeleton(CellBase.get_common_indexes), "CellBase.get_common_indexes")
-    emit("c15SrcCellCorner", S, skeleton(CellBase.get_corner), "CellBase.get_corner")
-    emit("c15SrcCellCommonSide", S, skeleton(CellBase.get_common_side), "CellBase.get_common_side")
-    emit("c15SrcCellAddNeighbour", S, skeleton(CellBase.add_neighbour), "CellBase.add_neighbour")
-    emit("c15SrcCellBoundary", S, skeleton(CellBase.boundary), "CellBase.boundary")
-    emit("c15SrcGridInit", S, skeleton(GridBase.__init__), "GridBase.__init__ (order of the three binding passes)")
-    emit("c15SrcBindCells", S, skeleton(GridBase._bind_cell_neighbours), "GridBase._bind_cell_neighbours")
-    emit("c15SrcBindJunctionCells", S, skeleton(GridBase._bind_junction_cells), "GridBase._bind_junction_cells")
-    emit("c15SrcBindJunctions", S, skeleton(GridBase._bind_junction_neighbours), "GridBase._bind_junction_neighbours")
-    fields = [(f.name, str(f.type)) for f in __import__("dataclasses").fields(connection.CellConnection)]
-    emit("c15SrcConnectionFields", "List (String × String)", fields, "fields of the dataclass CellConnection")
+    guard = getattr(emit, "guard", lambda fn, *a, **k: fn(*a, **k))
 
-    # literal tables as written in the class bodies (HexCell.edge_pairs is a name: constants.EDGE_PAIRS)
-    emit("c15QuadSideIdxLit", "List (List Nat)", [list(s) for s in class_literal(QuadCell, "side_indexes")],
-         "QuadCell.side_indexes, the literal in the class body")
-    emit("c15QuadEdgePairsLit", "List (Nat × Nat)", [tuple(p) for p in class_literal(QuadCell, "edge_pairs")],
-         "QuadCell.edge_pairs, the literal in the class body")
-    emit("c15HexSideIdxLit", "List (List Nat)", [list(s) for s in class_literal(HexCell, "side_indexes")],
-         "HexCell.side_indexes, the literal in the class body")
-    emit("c15HexEdgePairsConst", "List (Nat × Nat)", [tuple(p) for p in constants.EDGE_PAIRS], "constants.EDGE_PAIRS")
-    emit("c15HexEdgePairsIsConst", "Bool", class_literal(HexCell, "edge_pairs") is None and HexCell.edge_pairs is constants.EDGE_PAIRS,
-         "HexCell.edge_pairs is the name EDGE_PAIRS of util.constants")
-    emit("c15QuadSideNamesLit", "List String", list(class_literal(QuadCell, "side_names")), "QuadCell.side_names literal")
-    emit("c15HexSideNamesLit", "List String", list(class_literal(HexCell, "side_names")), "HexCell.side_names literal")
-
-    emit("c15SmoothDefaultIters", "Nat", int(default_of(SmootherBase.smooth, "iterations")), "default of smooth(iterations=…)")
+    # ---- plain values first: the ones `Model/C15.lean` names (they cannot fail for a source that still imports)
     tol = Fraction(float(constants.TOL))
     den = round(1 / float(constants.TOL))
     emit("c15TolDen", "Nat", den, "round(1 / constants.TOL)")
     emit("c15TolIsInvDen", "Bool", bool(float(constants.TOL) == 1.0 / den and abs(tol * den - 1) < Fraction(1, 10**9)),
          "constants.TOL is the float nearest to 1 / c15TolDen")
+    import inspect as _inspect
+
+    default = _inspect.signature(SmootherBase.smooth).parameters["iterations"].default
+    emit("c15SmoothDefaultIters", "Nat", int(default), "default of smooth(iterations=…)")
+    emit("c15HexEdgePairsConst", "List (Nat × Nat)", [tuple(p) for p in constants.EDGE_PAIRS], "constants.EDGE_PAIRS")
+
+    # ---- literal tables as written in the class bodies (HexCell.edge_pairs is a name: constants.EDGE_PAIRS); Props only
+    def literals():
+        emit("c15QuadSideIdxLit", "List (List Nat)", [list(s) for s in class_literal(QuadCell, "side_indexes")],
+             "QuadCell.side_indexes, the literal in the class body")
+        emit("c15QuadEdgePairsLit", "List (Nat × Nat)", [tuple(p) for p in class_literal(QuadCell, "edge_pairs")],
+             "QuadCell.edge_pairs, the literal in the class body")
+        emit("c15HexSideIdxLit", "List (List Nat)", [list(s) for s in class_literal(HexCell, "side_indexes")],
+             "HexCell.side_indexes, the literal in the class body")
+        emit("c15HexEdgePairsIsConst", "Bool",
+             class_literal(HexCell, "edge_pairs") is None and HexCell.edge_pairs is constants.EDGE_PAIRS,
+             "HexCell.edge_pairs is the name EDGE_PAIRS of util.constants")
+        emit("c15QuadSideNamesLit", "List String", list(class_literal(QuadCell, "side_names")), "QuadCell.side_names literal")
+        emit("c15HexSideNamesLit", "List String", list(class_literal(HexCell, "side_names")), "HexCell.side_names literal")
+        fields = [(f.name, str(f.type)) for f in __import__("dataclasses").fields(connection.CellConnection)]
+        emit("c15SrcConnectionFields", "List (String × String)", fields, "fields of the dataclass CellConnection")
+
+    guard(literals)
+
+    # ---- statement skeletons (Props only), every method in its own group: one that cannot be translated does not
+    # take the others with it
+    S = "List String"
+
+    def skel(name, obj, doc):
+        emit(name, S, skeleton(obj), doc + " — statement skeleton (cbv/tables/c15.py)")
+
+    for name, get, doc in [
+        ("c15SrcSmooth", lambda: SmootherBase.smooth, "SmootherBase.smooth"),
+        ("c15SrcSmootherInit", lambda: SmootherBase.__init__, "SmootherBase.__init__ (which junctions are inner)"),
+        ("c15SrcFixIndexes", lambda: SmootherBase.fix_indexes, "SmootherBase.fix_indexes"),
+        ("c15SrcFixPoints", lambda: SmootherBase.fix_points, "SmootherBase.fix_points"),
+        ("c15SrcBackportMesh", lambda: MeshSmoother.backport, "MeshSmoother.backport"),
+        ("c15SrcBackportSketch", lambda: SketchSmoother.backport, "SketchSmoother.backport"),
+        ("c15SrcJunctionPoint", lambda: Junction.point, "Junction.point (a view of the shared array: updates are in place)"),
+        ("c15SrcJunctionAddCell", lambda: Junction.add_cell, "Junction.add_cell"),
+        ("c15SrcJunctionAddNeighbour", lambda: Junction.add_neighbour, "Junction.add_neighbour"),
+        ("c15SrcJunctionIsBoundary", lambda: Junction.is_boundary, "Junction.is_boundary"),
+        ("c15SrcCellInit", lambda: CellBase.__init__, "CellBase.__init__ (neighbours dict, connections from edge_pairs)"),
+        ("c15SrcCellCommonIndexes", lambda: CellBase.get_common_indexes, "CellBase.get_common_indexes"),
+        ("c15SrcCellCorner", lambda: CellBase.get_corner, "CellBase.get_corner"),
+        ("c15SrcCellCommonSide", lambda: CellBase.get_common_side, "CellBase.get_common_side"),
+        ("c15SrcCellAddNeighbour", lambda: CellBase.add_neighbour, "CellBase.add_neighbour"),
+        ("c15SrcCellBoundary", lambda: CellBase.boundary, "CellBase.boundary"),
+        ("c15SrcGridInit", lambda: GridBase.__init__, "GridBase.__init__ (order of the three binding passes)"),
+        ("c15SrcBindCells", lambda: GridBase._bind_cell_neighbours, "GridBase._bind_cell_neighbours"),
+        ("c15SrcBindJunctionCells", lambda: GridBase._bind_junction_cells, "GridBase._bind_junction_cells"),
+        ("c15SrcBindJunctions", lambda: GridBase._bind_junction_neighbours, "GridBase._bind_junction_neighbours"),
+    ]:
+        guard(lambda name=name, get=get, doc=doc: skel(name, get(), doc))
